@@ -29,7 +29,7 @@
 (***************************************************************************)
 EXTENDS Cipher, Lookup3, Salsa20, Rc4, Md5, Simd, TLC, Json, IOUtils
 
-CONSTANT KnownDeviations      \* no deviation is defined for C09 so far; kept for the framework's interface
+CONSTANT KnownDeviations      \* ids of findings listed as known (findings.d): enables the named deviations below
 Rec == ndJsonDeserialize(IOEnv.TRACE)
 
 \* pos, out: inherited from Cipher (the current cipher instance)
@@ -71,6 +71,28 @@ J96Ok(data, r) ==
   LET h == HashLittle2(data, WZero, WZero)      \* <<pc, pb>>
   IN r.h64 = <<h[1][1], h[1][2], h[2][1], h[2][2]>> /\ r.h32 = h[1]
 
+\* Guarded blocks of a saved .idx file (IDX journal v7).  Header block: block hash =
+\* hashlittle(header, 0) (the pc of hashlittle2 with zero seeds).  Entry block: block hash =
+\* the pc of hashlittle2 chained entry by entry, starting from pc = pb = 0 (the repository's
+\* kmt_file.rs: "the sorted section uses per-entry hashlittle2() hash accumulation"; this is
+\* what CascLib's guarded-block check of the EKey entries recomputes).
+RECURSIVE ChainHash(_, _, _, _)
+ChainHash(d, n, off, st) ==
+  IF n = 0 \/ off + n > Len(d) THEN st[1]
+  ELSE ChainHash(d, n, off + n, HashLittle2(SubSeq(d, off + 1, off + n), st[1], st[2]))
+IdxEntryLen(h) == IF Len(h) >= 7 THEN h[5] + h[6] + h[7] ELSE 0     \* size + offset + key field lengths
+IdxHeaderOk(f) ==
+  /\ Len(f.header) = f.hsize /\ Len(f.entries) = f.esize
+  /\ f.hhash = HashLittle(f.header, WZero)
+IdxFileOk(f) ==
+  IdxHeaderOk(f) /\ f.ehash = ChainHash(f.entries, IdxEntryLen(f.header), 0, <<WZero, WZero>>)
+(* Dev_F09a: IndexManager::save_index stores hashlittle(entry_data, 0) - one hash over the
+   whole entry block - as the entry block's hash. *)
+IdxFileF09a(f) == IdxHeaderOk(f) /\ f.ehash = HashLittle(f.entries, WZero)
+DevF09a(e) ==
+  /\ "F09a" \in KnownDeviations /\ e.op = "f" /\ e.ok /\ e.fn = "idx_blocks"
+  /\ \A i \in 1..Len(e.res) : IdxFileOk(e.res[i]) \/ IdxFileF09a(e.res[i])
+
 \* all feature subsets produced one outcome, the portable path (mask 0) among them
 OneOutcome(e) == Len(e.res) = 1 /\ 0 \in RangeOf(e.res[1].feats)
 Forced(e, P(_)) == OneOutcome(e) /\ e.res[1].ok /\ P(e.res[1].r)
@@ -86,6 +108,7 @@ PureOk(e, ks) ==
          LET b == e.res IN Len(b) = 30 /\ SubSeq(b, 23, 26) = WToLE(HashLittle(SubSeq(b, 1, 22), ChecksumASeed))
     [] e.fn = "update_entry" ->
          LET b == e.res IN Len(b) = 24 /\ SubSeq(b, 1, 4) = WToLE(WOr(HashLittle(SubSeq(b, 5, 23), WZero), GuardBit))
+    [] e.fn = "idx_blocks"   -> \A i \in 1..Len(e.res) : IdxFileOk(e.res[i])
     [] e.fn = "memcmp"  ->
          IF Len(e.a) = Len(e.b) THEN Forced(e, LAMBDA r : r = MemcmpEq(e.a, e.b))
          ELSE OneOutcome(e) /\ (e.res[1].ok => e.res[1].r \in {-1, 1})
@@ -128,9 +151,12 @@ After(s, e) ==
      [s EXCEPT !.l = s.l + 1, !.viol = Append(s.viol, s.l)]
   ELSE
      LET j == Judge(s, e)
-         good == j.good /\ e.seq = s.seq + 1
+         seqok == e.seq = s.seq + 1
+         dA == ~j.good /\ DevF09a(e)            \* only the listed deviation explains the event
+         good == (j.good \/ dA) /\ seqok
      IN [l |-> s.l + 1, seq |-> e.seq, cur |-> j.cur, pos |-> j.pos, out |-> j.out, kc |-> j.kc,
-         viol |-> IF good THEN s.viol ELSE Append(s.viol, s.l), devs |-> s.devs]
+         viol |-> IF good THEN s.viol ELSE Append(s.viol, s.l),
+         devs |-> IF good /\ dA THEN Append(s.devs, <<s.l, "F09a">>) ELSE s.devs]
 
 TInit == /\ CInit
          /\ m = [l |-> 1, seq |-> 0, cur |-> NoParams, pos |-> 0, out |-> <<>>, kc |-> KcFresh(NoParams),
